@@ -331,3 +331,9 @@ def run(ctx):
                'the CRC byte ebusd transmits and the check of the slave response CRC are computed with this table')
     import rules.C09 as c09
     c09.symbol_layout_rule(ctx, 'C02.R15')
+    import rules.C14 as _c14
+    _c14.overflow_threshold_rule(ctx, 'C02.R17')
+    import rules.C11 as _c11
+    _c11.crc_start_rule(ctx, 'C02.R18')
+    import rules.C01 as _c01
+    _c01.unescape_rule(ctx, 'C02.R19')
